@@ -6,3 +6,4 @@ import WrglModel.Props.C08
 #print axioms Wrgl.C08_parent_first
 #print axioms Wrgl.C08_terminates
 #print axioms Wrgl.C08_steps_exponential
+#print axioms Wrgl.C08_all_wants
